@@ -1,8 +1,519 @@
-import KatdalModel.Model.Sensor
+/-
+  C12 — Numeric sensors are cleaned, interpolated, cached and selected consistently.
+
+  "A numeric sensor read through the sensor cache equals piecewise-linear interpolation, held
+   constant outside the sample range, of its samples onto the dump timestamps after samples with an
+   unreadable status are dropped and, among samples with identical timestamps, only the last is
+   kept; extraction never alters the raw samples, so a sensor and its aliases read with the same
+   properties give the same values. Indexing the cache by name gives the cached full-length result
+   restricted to the current time selection, repeated access returns the same values, virtual
+   sensors (az, el, mjd, ...) equal the documented function of their source sensors, and a sensor
+   with no usable samples or absent from one part of a concatenated data set is replaced by the
+   documented dummy value for its type."
+
+  Model: KatdalModel/Model/Sensor.lean (mirror of sensordata.py / concatdata.py sensor classes,
+  exact rational arithmetic).  The theorems below are about the property-conformant machine
+  (`inplace = false`); the `…inplace…` statements describe the code as found
+  (`sensor_data.timestamp += time_offset` on the getter's own array) and show where it departs.
+-/
+import KatdalModel.Lemmas.SensorClean
+import KatdalModel.Lemmas.SensorInterp
+import KatdalModel.Lemmas.SensorCache
 open Np Index Sensor
 
 namespace C12
 
-theorem placeholder_dummy_float : dummyVal .float = .nan := rfl
+/-! ## 1. clean-up: `remove_duplicates_and_invalid_values` -/
+
+/-- exactly `nominal`, `warn` and `error` are readable statuses -/
+theorem c12_status_accepts_exactly (s : String) :
+    statusOk s = true ↔ s = "nominal" ∨ s = "warn" ∨ s = "error" := by
+  simp [statusOk, Bool.or_eq_true, beq_iff_eq, or_assoc]
+
+example : statusOk "warn" = true ∧ statusOk "unknown" = false ∧ statusOk "1" = false := by decide
+
+/-- after sorting and de-duplication the time stamps are strictly increasing, whatever the order
+    and multiplicity of the raw samples -/
+theorem c12_dedup_sorted_strict (l : List Sample) : StrictT (dedup l) :=
+  keepLast_strict _ (sortByTime_sorted l)
+
+/-- a sample survives de-duplication iff it is the *last* raw sample (in the original order)
+    carrying its time stamp -/
+theorem c12_dedup_keeps_last (l : List Sample) (x : Sample) :
+    x ∈ dedup l ↔ (atTime x.t l).getLast? = some x := by
+  unfold dedup
+  have h := keepLast_atTime x.t (sortByTime l) (sortByTime_sorted l)
+  rw [sortByTime_atTime] at h
+  constructor
+  · intro hx
+    have : x ∈ atTime x.t (keepLast (sortByTime l)) := by
+      simp [atTime, List.mem_filter, hx]
+    rw [h] at this
+    simpa using this
+  · intro hx
+    have : x ∈ atTime x.t (keepLast (sortByTime l)) := by
+      rw [h, hx]; simp
+    exact (List.mem_filter.1 this).1
+
+/-- the status filter acts on the survivors of de-duplication (the code's order: a run of equal
+    time stamps whose last sample is unreadable disappears completely) -/
+theorem c12_clean_status (g : Getter) (x : Sample) :
+    x ∈ clean g ↔ x ∈ dedup g.samples ∧ (g.hasStatus = true → statusOk x.st = true) := by
+  unfold clean
+  split
+  · rename_i h; simp [List.mem_filter, h]
+  · rename_i h; simp [h]
+
+theorem c12_clean_sorted_strict (g : Getter) : StrictT (clean g) := by
+  unfold clean
+  split
+  · exact List.Pairwise.filter _ (c12_dedup_sorted_strict _)
+  · exact c12_dedup_sorted_strict _
+
+/-- …and these two facts pin the result down: any strictly increasing list with the documented
+    members *is* the cleaned sample list -/
+theorem c12_clean_unique (g : Getter) (r : List Sample) (hr : StrictT r)
+    (hmem : ∀ x, x ∈ r ↔ ((atTime x.t g.samples).getLast? = some x ∧
+      (g.hasStatus = true → statusOk x.st = true))) : r = clean g := by
+  apply strict_ext r (clean g) hr (c12_clean_sorted_strict g)
+  intro z
+  rw [hmem z, c12_clean_status, c12_dedup_keeps_last]
+
+-- the repository's own clean-up example (test_sensor_cleanup), unsorted with a run of four
+example :
+    clean { dtype := .str, hasStatus := true, samples :=
+      [⟨1, .str "broke", "unknown"⟩, ⟨0, .str "a", "nominal"⟩, ⟨3, .str "c", "nominal"⟩,
+       ⟨3, .str "c", "nominal"⟩, ⟨3, .str "c", "warn"⟩, ⟨3, .str "d", "error"⟩,
+       ⟨2, .str "b", "nominal"⟩] } =
+      [⟨0, .str "a", "nominal"⟩, ⟨2, .str "b", "nominal"⟩, ⟨3, .str "d", "error"⟩] := by
+  decide +kernel
+
+-- a run whose last sample is unreadable vanishes although an earlier one was readable
+example : clean { dtype := .float, hasStatus := true, samples :=
+    [⟨5, .num 1, "nominal"⟩, ⟨5, .num 2, "failure"⟩] } = [] := by decide +kernel
+
+/-! ## 2. interpolation: `np.interp` -/
+
+theorem c12_interp_at_knot (ks : List (Rat × Rat)) (hs : StrictX ks) (xk yk : Rat)
+    (h : (xk, yk) ∈ ks) : interp ks xk = yk := interp_at_knot ks hs xk yk h
+
+/-- between neighbouring knots: the straight line through them … -/
+theorem c12_interp_between (pre : List (Rat × Rat)) (x0 y0 x1 y1 : Rat) (post : List (Rat × Rat))
+    (hs : StrictX (pre ++ (x0, y0) :: (x1, y1) :: post)) (x : Rat) (h0 : x0 ≤ x) (h1 : x ≤ x1) :
+    interp (pre ++ (x0, y0) :: (x1, y1) :: post) x = y0 + (y1 - y0) * (x - x0) / (x1 - x0) :=
+  interp_between pre x0 y0 x1 y1 post hs x h0 h1
+
+/-- … i.e. a convex combination of the two neighbouring values -/
+theorem c12_interp_convex (pre : List (Rat × Rat)) (x0 y0 x1 y1 : Rat) (post : List (Rat × Rat))
+    (hs : StrictX (pre ++ (x0, y0) :: (x1, y1) :: post)) (x : Rat) (h0 : x0 ≤ x) (h1 : x ≤ x1) :
+    ∃ w : Rat, 0 ≤ w ∧ w ≤ 1 ∧
+      interp (pre ++ (x0, y0) :: (x1, y1) :: post) x = (1 - w) * y0 + w * y1 := by
+  have hx : x0 < x1 := by
+    have := (List.pairwise_append.1 hs).2.1
+    exact (List.pairwise_cons.1 this).1 (x1, y1) (by simp)
+  refine ⟨(x - x0) / (x1 - x0), (weight_bounds h0 h1 hx).1, (weight_bounds h0 h1 hx).2, ?_⟩
+  rw [interp_between pre x0 y0 x1 y1 post hs x h0 h1, seg_eq]
+  grind
+
+theorem c12_interp_hold_left (x0 y0 : Rat) (r : List (Rat × Rat)) (x : Rat) (h : x ≤ x0) :
+    interp ((x0, y0) :: r) x = y0 := interp_hold_left x0 y0 r x h
+
+theorem c12_interp_hold_right (ks : List (Rat × Rat)) (hs : StrictX ks) (xl yl : Rat)
+    (hl : ks.getLast? = some (xl, yl)) (x : Rat) (h : xl ≤ x) : interp ks x = yl :=
+  interp_hold_right ks hs xl yl hl x h
+
+theorem c12_interp_monotone (ks : List (Rat × Rat)) (hs : StrictX ks) (hm : MonoY ks)
+    (x x' : Rat) (h : x ≤ x') : interp ks x ≤ interp ks x' := interp_mono ks hs hm x x' h
+
+example : interp [(0, 0), (2, 4), (3, 10)] (5 / 2) = 7 ∧ interp [(0, 0), (2, 4), (3, 10)] 2 = 4 ∧
+    interp [(0, 0), (2, 4), (3, 10)] (-1) = 0 ∧ interp [(0, 0), (2, 4), (3, 10)] 9 = 10 := by
+  decide +kernel
+
+example : StrictX [(0, 0), (2, 4), (3, 10)] ∧ MonoY [(0, 0), (2, 4), (3, 10)] := by
+  constructor <;> simp [StrictX, MonoY] <;> decide +kernel
+
+/-! ## 3. extraction: clean-up, then interpolation onto the dumps -/
+
+/-- **a numeric sensor read is `np.interp` of the cleaned, offset samples on the dump grid** -/
+theorem c12_extract_numeric (g : Getter) (p : Props) (dumps : List Rat) (period : Rat)
+    (ks : List (Rat × Rat))
+    (hne : clean (shiftedGetter g p) ≠ [])
+    (hcat : p.categorical.getD (g.dtype != .float) = false)
+    (hks : knotsNum ((clean (shiftedGetter g p)).map fun s => (s.t, s.v)) = some ks) :
+    extract g dumps period p = .ok (.arr (dumps.map fun x => Val.num (interp ks x))) := by
+  unfold extract knotsOf
+  have hne' : (clean { g with samples := shiftSamples (p.timeOffset.getD 0) g.samples }).isEmpty = false := by
+    simpa [shiftedGetter, List.isEmpty_iff] using hne
+  simp only [hne', Bool.false_eq_true, if_false, hcat]
+  unfold numericPath
+  split
+  · rename_i heq
+    have hk := hks
+    simp only [shiftedGetter] at hk
+    rw [heq] at hk
+    simp [knotsNum, asNum] at hk
+  · simp only [shiftedGetter] at hks
+    rw [hks]
+    rfl
+
+example : extract { dtype := .float, hasStatus := false, samples := [⟨4, .num 3, ""⟩, ⟨7, .num 6, ""⟩] }
+    [0, 1, 2, 3, 4, 5, 6, 7, 8, 9] 1 { timeOffset := some (-1) } =
+    .ok (.arr [.num 3, .num 3, .num 3, .num 3, .num 4, .num 5, .num 6, .num 6, .num 6, .num 6]) := by
+  decide +kernel   -- katdal's own test_sensor_time_offset
+
+/-! ## 4. extraction never alters the raw samples; aliases -/
+
+/-- operations that leave the entry `name` alone -/
+def safeFor (name : String) : Op → Bool
+  | .get .. => true
+  | .setKeep _ => true
+  | .keys => true
+  | .setData n _ => n != name
+  | .setGetter n _ => n != name
+  | .del n => n != name
+  | .alias .. => false
+
+theorem step_frame (s : Cache) (op : Op) (hin : s.inplace = false) :
+    (step s op).2.getters = s.getters ∧ (step s op).2.inplace = false := by
+  cases op with
+  | get n sel ext kw =>
+    have h := (get_spec s n sel ext kw hin).1
+    exact ⟨h.1, h.2.2.2.2.2.trans hin⟩
+  | setData n c => exact ⟨rfl, hin⟩
+  | setGetter n id => exact ⟨rfl, hin⟩
+  | del n => simp only [step]; split <;> exact ⟨rfl, hin⟩
+  | setKeep k => cases k <;> exact ⟨rfl, hin⟩
+  | alias a o => exact ⟨rfl, hin⟩
+  | keys => exact ⟨rfl, hin⟩
+
+/-- **no sequence of cache operations — reads with any properties, selections, assignments,
+    deletions, aliases, virtual sensors — changes the raw samples behind any getter** -/
+theorem c12_extract_pure (ops : List Op) : ∀ (s : Cache), s.inplace = false →
+    (run s ops).getters = s.getters := by
+  induction ops with
+  | nil => intro s _; rfl
+  | cons op ops ih =>
+    intro s hin
+    have h := step_frame s op hin
+    simp only [run]
+    rw [ih _ h.2, h.1]
+
+/-- the code as found keeps the raw samples only when the effective time offset is zero -/
+theorem c12_extract_pure_inplace_partial (s : Cache) (n : String) (id : Nat) (g : Getter)
+    (sel : Bool) (kw : Props) (h : s.raw.lookup n = some (.getter id))
+    (hg : s.getters[id]? = some g) (hoff : (effProps n s.props kw).timeOffset.getD 0 = 0) :
+    (get s n sel true kw).2.getters = s.getters := by
+  have hshift : shiftedGetter g (effProps n s.props kw) = g := by
+    unfold shiftedGetter shiftSamples
+    rw [hoff]
+    have : (g.samples.map fun s => { s with t := s.t + 0 }) = g.samples := by
+      conv => rhs; rw [← List.map_id g.samples]
+      apply List.map_congr_left
+      intro a _
+      simp [Rat.add_zero]
+    rw [this]
+  have hset : s.getters.set id g = s.getters := by
+    apply List.ext_getElem?
+    intro i
+    by_cases hi : i = id
+    · subst hi
+      rw [List.getElem?_set]
+      simp only [if_true]
+      have hlt : i < s.getters.length := by
+        rcases List.getElem?_eq_some_iff.1 hg with ⟨hlt, _⟩; exact hlt
+      rcases List.getElem?_eq_some_iff.1 hg with ⟨_, hget⟩
+      simp [hlt, hget]
+    · rw [List.getElem?_set]
+      simp [Ne.symm hi]
+  unfold Sensor.get
+  simp only [Bool.not_true, Bool.and_false, Bool.false_eq_true, if_false, h]
+  unfold getPlain
+  simp only [Bool.not_true, Bool.and_false, Bool.false_eq_true, if_false, h, hg, hshift]
+  cases s.inplace <;> simp only [Bool.false_eq_true, if_false, if_true] <;> split <;> simp [hset]
+
+def demo (inplace : Bool) : Cache :=
+  { raw := [("foo", .getter 0), ("bar", .getter 0)],
+    getters := [{ dtype := .float, hasStatus := false, samples := [⟨4, .num 3, ""⟩, ⟨7, .num 6, ""⟩] }],
+    dumps := [0, 1, 2, 3, 4, 5, 6, 7, 8, 9], period := 1, keep := .slice none none none,
+    props := [], virt := [.mjd, .azel], inplace := inplace }
+
+/-- … and alters them otherwise: the unrestricted statement is false for the code as found
+    (`foo` read with `time_offset = 1` moves the samples from 4, 7 to 5, 8) -/
+theorem c12_extract_pure_inplace_full_is_false :
+    ¬ ∀ (s : Cache) (n : String) (kw : Props), (get s n false true kw).2.getters = s.getters := by
+  intro h
+  have := h (demo true) "foo" { timeOffset := some 1 }
+  revert this
+  decide +kernel
+
+example : (run (demo false) [.get "foo" false true { timeOffset := some 1 }]).getters = (demo false).getters :=
+  c12_extract_pure _ _ rfl
+
+/-- **a sensor and its alias (two names for one getter) read with the same properties give the
+    same values, whichever is read first** -/
+theorem c12_alias_same_values (s : Cache) (a b : String) (id : Nat) (g : Getter) (c : Cached)
+    (kw : Props) (hin : s.inplace = false) (hab : b ≠ a) (hstar : a.toList.contains '*' = false)
+    (ha : s.raw.lookup a = some (.getter id)) (hb : s.raw.lookup b = some (.getter id))
+    (hg : s.getters[id]? = some g)
+    (hprops : effProps b s.props kw = effProps a s.props kw)
+    (hc : extract g s.dumps s.period (effProps a s.props kw) = .ok c) :
+    (get (get s a false true kw).2 b false true kw).1 = (get s a false true kw).1 ∧
+    (get (get s a false true kw).2 b false true kw).1 = .ok (.full c) := by
+  rw [get_of_getter s a id g c false kw ha hg hin hc]
+  simp only [Bool.false_eq_true, if_false]
+  have hb' : (dictSet a (Entry.data c) s.raw).lookup b = some (.getter id) := by
+    rw [lookup_dictSet_ne a b _ hab]; exact hb
+  have hc' : extract g s.dumps s.period (effProps b (stickProps a s.props kw) kw) = .ok c := by
+    unfold stickProps
+    rw [effProps_stick_other a b _ s.props kw hab hstar, hprops]
+    exact hc
+  have := get_of_getter
+    { s with props := stickProps a s.props kw, raw := dictSet a (.data c) s.raw } b id g c false kw
+    hb' hg hin hc'
+  rw [this]
+  simp
+
+/-- the code as found breaks it: the alias read second is shifted twice -/
+theorem c12_alias_inplace_is_false :
+    (get (get (demo true) "foo" false true { timeOffset := some 1 }).2 "bar" false true
+      { timeOffset := some 1 }).1 ≠ (get (demo true) "foo" false true { timeOffset := some 1 }).1 := by
+  decide +kernel
+
+example : (get (get (demo false) "foo" false true { timeOffset := some 1 }).2 "bar" false true
+      { timeOffset := some 1 }).1 = (get (demo false) "foo" false true { timeOffset := some 1 }).1 := by
+  decide +kernel
+
+/-! ## 5. the cache: first extraction fixes the value, later reads are that value restricted to
+       the current selection -/
+
+/-- first read of a raw sensor extracts it with the merged properties and caches the result -/
+theorem c12_first_read_extracts (s : Cache) (n : String) (id : Nat) (g : Getter) (c : Cached)
+    (sel : Bool) (kw : Props) (h : s.raw.lookup n = some (.getter id))
+    (hg : s.getters[id]? = some g) (hin : s.inplace = false)
+    (hc : extract g s.dumps s.period (effProps n s.props kw) = .ok c) :
+    (get s n sel true kw).1 = (if sel then select c s.keep else .ok (.full c)) ∧
+    (get s n sel true kw).2.raw.lookup n = some (.data c) := by
+  rw [get_of_getter s n id g c sel kw h hg hin hc]
+  exact ⟨rfl, lookup_dictSet_self n _ _⟩
+
+/-- `cache[name]` / `get(name, select=True)` on a cached sensor = the cached full-length value
+    restricted to the *current* selection; whatever properties are passed now are ignored -/
+theorem c12_cached_read (s : Cache) (n : String) (c : Cached) (kw : Props)
+    (h : s.raw.lookup n = some (.data c)) :
+    get s n true true kw = (select c s.keep, s) ∧ get s n false true kw = (.ok (.full c), s) := by
+  constructor
+  · rw [get_of_data s n c true true kw h rfl]; rfl
+  · rw [get_of_data s n c false true kw h rfl]; rfl
+
+theorem step_keeps (s : Cache) (op : Op) (name : String) (c : Cached) (hin : s.inplace = false)
+    (hs : safeFor name op = true) (h : s.raw.lookup name = some (.data c)) :
+    (step s op).2.raw.lookup name = some (.data c) := by
+  cases op with
+  | get n sel ext kw => exact (get_spec s n sel ext kw hin).2 name c h
+  | setData n c' =>
+    have hne : name ≠ n := by intro e; subst e; simp [safeFor] at hs
+    simp only [step]; rw [lookup_dictSet_ne n name _ hne]; exact h
+  | setGetter n id =>
+    have hne : name ≠ n := by intro e; subst e; simp [safeFor] at hs
+    simp only [step]; rw [lookup_dictSet_ne n name _ hne]; exact h
+  | del n =>
+    have hne : name ≠ n := by intro e; subst e; simp [safeFor] at hs
+    simp only [step]
+    split
+    · exact h
+    · simp only []; rw [lookup_dictDel_ne n name hne]; exact h
+  | setKeep k => cases k <;> exact h
+  | alias a o => simp [safeFor] at hs
+  | keys => exact h
+
+/-- **cache stability**: once `name` is cached with value `c`, then after *any* sequence of
+    operations that does not assign to or delete `name` itself — reads of any sensor (its aliases
+    included) in any order with any properties, virtual sensor creation, selections before or
+    after, assignments to other names — the entry is still `c`, and `cache[name]` is `c`
+    restricted to the selection in force at that moment. -/
+theorem c12_cache_stable (ops : List Op) : ∀ (s : Cache) (name : String) (c : Cached) (kw : Props),
+    s.inplace = false → (∀ op ∈ ops, safeFor name op = true) →
+    s.raw.lookup name = some (.data c) →
+    (run s ops).raw.lookup name = some (.data c) ∧
+    (get (run s ops) name true true kw).1 = select c (run s ops).keep := by
+  induction ops with
+  | nil =>
+    intro s name c kw _ _ h
+    exact ⟨h, by simp only [run]; rw [(c12_cached_read s name c kw h).1]⟩
+  | cons op ops ih =>
+    intro s name c kw hin hs h
+    simp only [run]
+    exact ih _ name c kw (step_frame s op hin).2 (fun o ho => hs o (List.mem_cons_of_mem _ ho))
+      (step_keeps s op name c hin (hs op (by simp)) h)
+
+/-- in particular a second read, with whatever properties, returns what the first one returned -/
+theorem c12_repeated_access_same (s : Cache) (n : String) (id : Nat) (g : Getter) (c : Cached)
+    (sel : Bool) (kw kw' : Props) (h : s.raw.lookup n = some (.getter id))
+    (hg : s.getters[id]? = some g) (hin : s.inplace = false)
+    (hc : extract g s.dumps s.period (effProps n s.props kw) = .ok c) :
+    (get (get s n sel true kw).2 n sel true kw').1 = (get s n sel true kw).1 := by
+  rw [get_of_getter s n id g c sel kw h hg hin hc]
+  simp only []
+  rw [get_of_data _ n c sel true kw' (lookup_dictSet_self n _ _) (by simp)]
+
+example : (get (run (demo false) [.get "foo" false true { timeOffset := some 1 }, .setKeep (some (.mask
+      [true, false, false, false, false, false, true, false, false, true])), .get "bar" true true {},
+      .get "Timestamps/mjd" true true {}]) "foo" true true { timeOffset := some 5 }).1 =
+    .ok (.sel [.num 3, .num 4, .num 6]) := by decide +kernel
+
+/-! ## 6. dummy values -/
+
+/-- with no usable samples and no `initial_value` the knot list is the single documented dummy
+    sample of the sensor's dtype … -/
+theorem c12_dummy_knots (g : Getter) (p : Props) (h : clean (shiftedGetter g p) = [])
+    (hi : p.initialValue = none) : knotsOf g p = ([(0, dummyVal g.dtype)], g.dtype) := by
+  unfold knotsOf
+  have : (clean { g with samples := shiftSamples (p.timeOffset.getD 0) g.samples }).isEmpty = true := by
+    simpa [shiftedGetter, List.isEmpty_iff] using h
+  simp [this, hi]
+
+/-- … so a float sensor reads NaN at every dump … -/
+theorem c12_dummy_float (g : Getter) (p : Props) (dumps : List Rat) (period : Rat)
+    (h : clean (shiftedGetter g p) = []) (hi : p.initialValue = none) (hd : g.dtype = .float)
+    (hc : p.categorical = none) :
+    extract g dumps period p = .ok (.arr (dumps.map fun _ => Val.nan)) := by
+  unfold extract
+  rw [c12_dummy_knots g p h hi]
+  simp [hc, hd, dummyVal, numericPath, Except.map]
+
+/-- … and an int / str / bool / object sensor reads -1 / '' / False / None at every dump (as
+    categorical data), provided time 0 is not after the end of the last dump -/
+theorem c12_dummy_per_dtype (g : Getter) (p : Props) (dumps : List Rat) (period : Rat) (dl : Rat)
+    (h : clean (shiftedGetter g p) = []) (hi : p.initialValue = none) (hd : g.dtype ≠ .float)
+    (hc : p.categorical = none) (ht : p.transform = none)
+    (hl : dumps.getLast? = some dl) (h0 : 0 ≤ dl + period / 2) :
+    extract g dumps period p = .ok (.cat (dumps.map fun _ => dummyVal g.dtype)) := by
+  unfold extract
+  rw [c12_dummy_knots g p h hi]
+  have hne : (g.dtype != DType.float) = true := by simp [bne_iff_ne, hd]
+  simp only [hc, Option.getD_none, hne, if_true, catPath, ht, hi, hl]
+  have hf : (List.filter (fun k : Rat × Val => decide (k.1 ≤ dl + period / 2))
+      (List.map (fun k => (k.1, applyTransform none k.2)) [((0 : Rat), dummyVal g.dtype)])) =
+      [((0 : Rat), dummyVal g.dtype)] := by
+    simp [applyTransform, h0]
+  simp only [hf, List.isEmpty_cons, Bool.false_eq_true, if_false, Except.map]
+  congr 2
+  apply List.map_congr_left
+  intro d _
+  simp only [catAt, List.map_cons, List.map_nil, applyTransform]
+  by_cases hle : (0 : Rat) ≤ d + period / 2 <;> simp [hle]
+
+theorem c12_dummy_values : dummyVal .float = .nan ∧ dummyVal .int = .int (-1) ∧
+    dummyVal .str = .str "" ∧ dummyVal .bool = .bool false ∧ dummyVal .obj = .none :=
+  ⟨rfl, rfl, rfl, rfl, rfl⟩
+
+example : extract { dtype := .str, hasStatus := true, samples := [⟨101, .str "a", "unknown"⟩] }
+    [100, 101] 1 {} = .ok (.cat [.str "", .str ""]) := by decide +kernel
+
+/-- what `fillMissing` must deliver for an unselected read: present parts unchanged, missing parts
+    the dummy extracted on *that part's* dump grid -/
+def fillSpec (dummy : Getter) (p : Props) : List (Option Out) → List Cache → Except Err (List Out)
+  | some o :: r, _ :: cs =>
+    match fillSpec dummy p r cs with
+    | .ok os => .ok (o :: os)
+    | .error e => .error e
+  | none :: r, c :: cs =>
+    match extract dummy c.dumps c.period p with
+    | .error e => .error e
+    | .ok d =>
+      match fillSpec dummy p r cs with
+      | .ok os => .ok (.full d :: os)
+      | .error e => .error e
+  | _, _ => .ok []
+
+/-- **a sensor absent from arbitrary parts of a concatenated data set**: every missing part
+    contributes the dummy extracted on its own dumps, every present part its own value -/
+theorem c12_concat_missing_part_dummy (name : String) (kw : Props) (dummy : Getter) (p : Props) :
+    ∀ (split : List (Option Out)) (parts : List Cache),
+      (fillMissing name false kw dummy p split parts).1 = fillSpec dummy p split parts := by
+  intro split
+  induction split with
+  | nil => intro parts; cases parts <;> simp [fillMissing, fillSpec]
+  | cons o r ih =>
+    intro parts
+    cases parts with
+    | nil => cases o <;> simp [fillMissing, fillSpec]
+    | cons c cs =>
+      cases o with
+      | some o =>
+        simp only [fillMissing, fillSpec]
+        rw [← ih cs]
+        split <;> simp_all
+      | none =>
+        simp only [fillMissing, fillSpec]
+        cases hd : extract dummy c.dumps c.period p with
+        | error e => simp
+        | ok d =>
+          simp only []
+          have hlook : ({ c with raw := dictSet name (Entry.data d) c.raw } : Cache).raw.lookup name
+              = some (.data d) := lookup_dictSet_self name _ _
+          rw [get_of_data _ name d false true kw hlook (by simp)]
+          simp only [Bool.false_eq_true, if_false]
+          rw [← ih cs]
+          split <;> simp_all
+
+/-- the float dummy of a missing part is NaN on every dump of that part, whatever time offset and
+    other (non-categorical) properties are in force -/
+theorem c12_concat_dummy_float (p : Props) (dumps : List Rat) (period : Rat)
+    (hc : p.categorical = none) :
+    extract { dtype := .float, hasStatus := false, samples := [⟨0, dummyVal .float, ""⟩] } dumps period p =
+      .ok (.arr (dumps.map fun _ => Val.nan)) := by
+  unfold extract knotsOf clean dedup
+  simp [shiftSamples, sortByTime, ins, keepLast, hc, dummyVal, numericPath, Except.map]
+
+def demoConcat : Concat :=
+  { parts := [{ demo false with dumps := [0, 1, 2, 3], keep := .mask [true, false, true, true] },
+              { demo false with raw := [], dumps := [4, 5], keep := .mask [false, true] },
+              { demo false with dumps := [6, 7, 8], keep := .mask [true, true, false] }],
+    props := [] }
+
+example : (demoConcat.get "foo" false true {}).1 =
+    .ok (.full (.arr [.num 3, .num 3, .num 3, .num 3, .nan, .nan, .num 5, .num 6, .num 6])) ∧
+    (demoConcat.get "foo" true true {}).1 = .ok (.sel [.num 3, .num 3, .num 3, .nan, .num 5, .num 6]) := by
+  decide +kernel
+
+/-! ## 7. virtual sensors (astronomy opaque: `deg2rad`, `mjd` are uninterpreted symbols) -/
+
+/-- `Timestamps/mjd` = `mjd` of every dump timestamp -/
+theorem c12_virtual_mjd (s : Cache) :
+    runVirt s "Timestamps/mjd" .mjd = some (.ok (s.dumps.map fun t => Val.app "mjd" (.num t)), s) := by
+  simp [runVirt]
+
+/-- `Antennas/<ant>/az` (`el`) = `deg2rad` of the full-length `<ant>_pos_actual_scan_azim`
+    (`_elev`) sensor -/
+theorem c12_virtual_azel (s : Cache) (name ant which : String) (vs : List Val)
+    (hname : splitOnChar name '/' = ["Antennas", ant, which]) (hant : ant ≠ "")
+    (hw : which = "az" ∨ which = "el")
+    (hsrc : s.raw.lookup (ant ++ "_pos_actual_scan_" ++ (if which = "az" then "azim" else "elev"))
+      = some (.data (.arr vs))) :
+    runVirt s name .azel = some (.ok (vs.map (Val.app "deg2rad")), s) := by
+  simp only [runVirt, hname]
+  simp only [hant, hw, ne_eq, not_false_eq_true, and_self, if_true]
+  simp only [fullArr, getPlain, Bool.not_true, Bool.and_false, Bool.false_eq_true, if_false, hsrc]
+
+/-- a virtual sensor is computed once, stored under its name and from then on behaves like any
+    cached sensor (so `c12_cache_stable` applies to it) -/
+theorem c12_virtual_cached (s s' : Cache) (name : String) (vs : List Val) (sel ext : Bool) (kw : Props)
+    (hnone : s.raw.lookup name = none) (hse : (sel && !ext) = false)
+    (hv : firstVirt s name s.virt = some (.ok vs, s')) :
+    (get s name sel ext kw).1 = (if sel then select (.arr vs) s'.keep else .ok (.full (.arr vs))) ∧
+    (get s name sel ext kw).2.raw.lookup name = some (.data (.arr vs)) := by
+  unfold Sensor.get
+  simp only [hse, Bool.false_eq_true, if_false, hnone, hv]
+  exact ⟨rfl, lookup_dictSet_self name _ _⟩
+
+def demoAz : Cache :=
+  { demo false with raw := [("m000_pos_actual_scan_azim", .getter 0)], keep := .mask
+      [true, false, false, false, false, true, false, false, false, false] }
+
+example : (get demoAz "Antennas/m000/az" true true {}).1 =
+    .ok (.sel [.app "deg2rad" (.num 3), .app "deg2rad" (.num 4)]) ∧
+    (get demoAz "Timestamps/mjd" true true {}).1 = .ok (.sel [.app "mjd" (.num 0), .app "mjd" (.num 5)]) := by
+  decide +kernel
 
 end C12
